@@ -102,14 +102,12 @@ def _mk():
     # ---- global bindings (also the `via` names of the paths below)
     for name, typ in [("Object", "function"), ("Array", "function"), ("Promise", "function"), ("Symbol", "function"),
                       ("Number", "function"), ("Error", "function"), ("Map", "function"), ("Set", "function"),
-                      ("Math", "object"), ("JSON", "object"), ("Reflect", "object")]:
+                      ("Math", "object"), ("JSON", "object"), ("Reflect", "object"), ("globalThis", "object")]:
         T = f"{G}.{name}"
-        add(T, G, name, "wc", "custom", f"return typeof {name}", f"s:{typ}", over={
-            "repl": [U(f"{T} ret s:function")], "absent": [U(f"{T} ret s:undefined")],
-            "getter": [W(f"s:GET s:{T}"), U(f"{T} ret s:function")]})
-    add(f"{G}.globalThis", G, "globalThis", "wc", "custom", "return typeof globalThis", "s:object", over={
-        "repl": [U(f"{G}.globalThis ret s:function")], "absent": [U(f"{G}.globalThis ret s:undefined")],
-        "getter": [W(f"s:GET s:{G}.globalThis"), U(f"{G}.globalThis ret s:function")]})
+        add(T, G, name, "wc", "custom", f"var v={name}; return typeof v==='function' ? v.name : typeof v",
+            f"s:{name}" if typ == "function" else "s:object", over={
+            "repl": [U(f"{T} ret s:repl")], "absent": [U(f"{T} throw E:ReferenceError")],
+            "getter": [W(f"s:GET s:{T}"), U(f"{T} ret s:sabg")]})
     add(f"{G}.parseInt", G, "parseInt", "wc", "gfunc", "return parseInt('42')", "n:42")
     add(f"{G}.isNaN", G, "isNaN", "wc", "gfunc", "return isNaN(NaN)", "b:true")
     add(f"{G}.NaN", G, "NaN", "--", "value", "return NaN", "n:NaN")
